@@ -36,15 +36,33 @@ func extractTextEsc(repo string) error {
 	for _, n := range textescWanted {
 		want[n] = true
 	}
-	var keep []*FuncDef
+	// Keep the wanted functions and, transitively, the functions of the file
+	// they call (u.Funcs is in callee-first order, so one backward pass finds
+	// them); a callee that is not translatable has already made its caller
+	// Unsupported.
+	keepSet := map[*FuncDef]bool{}
 	byName := map[string]*FuncDef{}
-	for _, f := range u.Funcs {
+	for i := len(u.Funcs) - 1; i >= 0; i-- {
+		f := u.Funcs[i]
 		if want[f.Name] {
-			keep = append(keep, f)
+			keepSet[f] = true
 			byName[f.Name] = f
 			if f.Unsupported != "" {
 				fmt.Fprintf(os.Stderr, "srcmodel: %s: %s is unsupported: %s\n", rel, f.CoqName, f.Unsupported)
 			}
+			continue
+		}
+		for g := range keepSet {
+			if mentions(g.Body, f.CoqName) || mentions(g.Pre, f.CoqName) {
+				keepSet[f] = true
+				break
+			}
+		}
+	}
+	var keep []*FuncDef
+	for _, f := range u.Funcs {
+		if keepSet[f] {
+			keep = append(keep, f)
 		}
 	}
 	u.Funcs = keep
@@ -69,4 +87,23 @@ func extractTextEsc(repo string) error {
 		return fmt.Errorf("%w: %s", errIncomplete, strings.Join(missing, " "))
 	}
 	return nil
+}
+
+// mentions reports whether the Gallina text contains name as a whole identifier.
+func mentions(text, name string) bool {
+	for i := 0; ; {
+		j := strings.Index(text[i:], name)
+		if j < 0 {
+			return false
+		}
+		j += i
+		end := j + len(name)
+		isId := func(c byte) bool {
+			return c == '_' || c == '\'' || c >= '0' && c <= '9' || c >= 'a' && c <= 'z' || c >= 'A' && c <= 'Z'
+		}
+		if (j == 0 || !isId(text[j-1])) && (end == len(text) || !isId(text[end])) {
+			return true
+		}
+		i = end
+	}
 }
